@@ -24,6 +24,9 @@ func init() {
 			"the allocator's memory at quiescence; aliasing of *alloc values through element pointers.",
 		Run: runC01,
 		Mutants: []Mutant{
+			{Name: "check-adopts-key-in-place", File: "internal/allocator/allocator.go",
+				Old: "\t\t\t\treturn fmt.Errorf(\"can't change sharing key for %q, address also in use by %s\", svc, strings.Join(otherSvcs, \",\"))\n\t\t\t}\n",
+				New: "\t\t\t\treturn fmt.Errorf(\"can't change sharing key for %q, address also in use by %s\", svc, strings.Join(otherSvcs, \",\"))\n\t\t\t}\n\t\t\t*existingSK = *sk\n", Expect: "CHECK-PURE"},
 			{Name: "assign-skips-sharing-loop", File: "internal/allocator/allocator.go",
 				Old:    "\t\tif err := a.checkSharing(svcKey, ip.String(), ports, sk); err != nil {\n\t\t\treturn err\n\t\t}\n\t}\n\n\t// Either the IP is entirely unused",
 				New:    "\t\tif err := a.checkSharing(svcKey, ip.String(), ports, sk); err != nil {\n\t\t\tbreak\n\t\t}\n\t}\n\n\t// Either the IP is entirely unused",
@@ -80,6 +83,8 @@ func runC01(p *chk.Prog, r *chk.Report) {
 	c01Args(p, r)
 	c01Rekey(p, r)
 	c01KeyLifetime(p, r)
+	pureCheckRule(p, r.Rule("CHECK-PURE", "D ownership (effects)", "the functions that only judge whether an address may be used - (*Allocator).checkSharing, sharingOK, poolFor, (*Allocator).isPoolCompatibleWithService - store nothing outside their own local variables: no assignment through a pointer, into a field, a map or slice element of something they were given or loaded, no delete, no ++/-- on such a place (the candidate search calls them for addresses it then does not take; the recorded keys are shared with the allocations through pointers)", 3),
+		[][3]string{{allocPkg, "Allocator", "checkSharing"}, {allocPkg, "", "sharingOK"}, {allocPkg, "", "poolFor"}, {allocPkg, "Allocator", "isPoolCompatibleWithService"}})
 }
 
 // GUARD-SHARE: Assign.
